@@ -91,4 +91,14 @@ def check_case(case, ctx):
         v.append(f"failing mode did not raise: {what}")
     except Exception:
         pass
+    if case.get("cli", True) and len(case["ops"]) == 1:
+        # the command line in its default (failing) mode must end with an error, not a normal return
+        import amr_kitchen.taste.cli as cli
+        from . import common
+        argv = ["taste", "src", "-v", "0"] + (["-bc"] if coords else []) + (["-l", str(limit)] if limit is not None else [])
+        try:
+            common.run_main(cli.main, argv)
+            v.append(f"the taste command line returned normally: {what}")
+        except Exception:
+            pass
     return v
